@@ -922,6 +922,33 @@ func runLifeSeq(w *lifeWorld, out *c.Out, r *c.Rng, steps int) {
 				return
 			}
 		case x < 18: // governance changes or deletes a committee while proposals are pending
+			if r.Chance(35) {
+				// the same committee with one member less (same kind, threshold, tally option): the votes the
+				// removed member already cast must not help a pending proposal over the threshold
+				var cands []comDesc
+				for _, d := range s.coms {
+					if !d.token && len(d.members) > 1 {
+						cands = append(cands, d)
+					}
+				}
+				sort.Slice(cands, func(i, j int) bool { return cands[i].id < cands[j].id })
+				if len(cands) > 0 {
+					d := c.Pick(r, cands)
+					drop := r.Intn(len(d.members))
+					// prefer dropping a member who has voted on a pending proposal of this committee
+					for i, m := range d.members {
+						for k := range s.cast {
+							if int(k[1]) == m {
+								drop = i
+							}
+						}
+					}
+					nd := d
+					nd.members = append(append([]int{}, d.members[:drop]...), d.members[drop+1:]...)
+					s.setCom(nd)
+					break
+				}
+			}
 			if r.Chance(70) {
 				s.setCom(s.genCommittee(uint64(r.Intn(4) + 1)))
 			} else {
